@@ -779,7 +779,7 @@ def main(tier: str) -> int:
         "random operation sequences on Tally / EventBasedTally (no, one, all subscribers; register and notify) and Counter / "
         "EventBasedCounter: observations from the families small ints, dyadic, uniform, mixed magnitude 1e-12..1e12, large offset + "
         "small spread, all equal, two-level, few-ulp spread, tiny (variance underflows), extreme (1e80..1e150), lengths 0..34 plus long "
-        f"runs of {sorted(set(longs))} observations, interleaved with initialize and rejected inputs (NaN, str, None, huge int; +-inf as "
+        f"runs of {sorted(set(longs))} observations, interleaved with initialize and rejected inputs (NaN, str, None, huge int, notifications whose event type is a different EventType named DATA_EVENT; +-inf as "
         "accepted non-finite input). Getters compared after every call or after a sample of calls. non-trivial = distinct case in "
         "which at some compared point >= 4 observations with non-zero variance were registered since the last initialize, the data "
         "is in the regular regime (|x| <= 1e60, spread >= 1e-6 of the magnitude) and every statistic incl. the unbiased kurtosis was "
